@@ -50,6 +50,7 @@ func init() {
 		Explanation: "POS-STAMP: in compile no return leaves the big switch, so the loop that stamps un-positioned instructions with the current node's position runs for every node kind. POS-FUSED: every instruction literal built by the optimiser takes Pos from a component of its own window, and from the last one — the first component of every window is a load that cannot fail, so in unoptimised code the failing instruction (and the call instruction whose position is pushed on the backtrace) is a later component; identical reports with the optimiser on or off need the fused instruction to carry that position. FRM-PAIR (shared with C07): the backtrace push precedes the frame switch and is popped after the body. BT-ORDER: btErr reports the faulting instruction first, then the backtrace from innermost to outermost. Not decided: that positions equal Go's notion of the line; windows with two failing-capable components on different lines.",
 		Quick: []ruleDef{
 			{"POS-STAMP", 2, rulePosStamp},
+			{"POS-STORE", 3, rulePosStore},
 			{"POS-FUSED", 15, rulePosFused},
 			{"FRM-PAIR", 6, ruleFrmPair},
 			{"BT-ORDER", 2, ruleBtOrder},
@@ -2089,4 +2090,134 @@ func ruleLoadCleanPath(c *Ctx, r *R) {
 	okOrder := cleaned && firstUse.IsValid() && cleanAt.IsValid() && firstUse >= cleanAt && firstUse <= cleanAt+token.Pos(40)
 	r.check(cleaned && okOrder, "Load cleans its path", c.Pos(fd), "the package path is normalised with filepath.Clean before it is used",
 		"VM.Load no longer normalises the package path with filepath.Clean before using it: Load(fs, \"./rules\") registers the package's globals as ./rules.X beside the live rules.X, so a reload replaces nothing in place — captured functions keep running the old code and variables are not reinitialised, without any error")
+}
+
+// POS-STORE: an element or field access that an assignment makes on its target (the SET /
+// SETATTR of `x[i] = v`, `p.f = v`, and the GET / GETATTR + SET / SETATTR of `x[i] += v`,
+// `p.f++`) is a faulting operation of the target expression: it carries the position of the
+// target (its `[` or `.`), as the load of the same element does, not the position of the
+// assignment operator that the stamping loop would give it — the two can be on different
+// lines.  Decided on every instruction literal with one of those four opcodes inside a branch
+// of compile that tests `X.Symbol == "index"` or `X.Symbol == "."`: its Pos field is built
+// from X.
+func rulePosStore(c *Ctx, r *R) {
+	cs, err := c.compileSwitch()
+	if err != nil {
+		r.undecided("compile", "-", err.Error())
+		return
+	}
+	faulting := map[string]bool{"codeSet": true, "codeSetAttr": true, "codeGet": true, "codeGetAttr": true}
+	var tokParam types.Object
+	if ps := cs.Fn.Type.Params.List; len(ps) > 0 && len(ps[0].Names) > 0 {
+		tokParam = c.Info.Defs[ps[0].Names[0]]
+	}
+	// mentions: the expression (following single-assignment locals and new helpers one level)
+	// is built from obj
+	var mentions func(e ast.Expr, obj types.Object, depth int) bool
+	mentions = func(e ast.Expr, obj types.Object, depth int) bool {
+		found := false
+		ast.Inspect(e, func(n ast.Node) bool {
+			id, ok := n.(*ast.Ident)
+			if !ok || found {
+				return !found
+			}
+			o := c.Obj(id)
+			if o == obj {
+				found = true
+				return false
+			}
+			if v, ok := o.(*types.Var); ok && depth < 3 && v != tokParam {
+				if fd := c.EnclosingFunc(e); fd != nil {
+					ast.Inspect(fd.Body, func(m ast.Node) bool {
+						as, ok := m.(*ast.AssignStmt)
+						if !ok || len(as.Lhs) != len(as.Rhs) {
+							return true
+						}
+						for i, l := range as.Lhs {
+							if lid, ok := unparen(l).(*ast.Ident); ok && (c.Info.Defs[lid] == v || c.Info.Uses[lid] == v) && as.Rhs[i].Pos() < e.Pos() {
+								if mentions(as.Rhs[i], obj, depth+1) {
+									found = true
+								}
+							}
+						}
+						return !found
+					})
+				}
+			}
+			return !found
+		})
+		return found
+	}
+	n := 0
+	ast.Inspect(cs.Switch, func(m ast.Node) bool {
+		ifs, ok := m.(*ast.IfStmt)
+		if !ok {
+			return true
+		}
+		var target types.Object
+		for _, cj := range conjuncts(ifs.Cond) {
+			be, ok := unparen(cj).(*ast.BinaryExpr)
+			if !ok || be.Op != token.EQL {
+				continue
+			}
+			sel, ok := unparen(be.X).(*ast.SelectorExpr)
+			if !ok || sel.Sel.Name != "Symbol" {
+				continue
+			}
+			s, ok := c.ConstString(be.Y)
+			if !ok || (s != "index" && s != ".") {
+				continue
+			}
+			if id, ok := unparen(sel.X).(*ast.Ident); ok && c.Obj(id) != tokParam {
+				target = c.Obj(id)
+			}
+		}
+		if target == nil {
+			return true
+		}
+		// this branch handles an assignment target only when it sits in an assignment case:
+		// it both compiles the target's children and emits a store
+		ast.Inspect(ifs.Body, func(k ast.Node) bool {
+			if _, ok := k.(*ast.FuncLit); ok {
+				return false
+			}
+			cl, ok := k.(*ast.CompositeLit)
+			if !ok {
+				return true
+			}
+			if tn, ok := c.TypeOf(cl).(*types.Named); !ok || tn.Obj().Name() != "instruction" {
+				return true
+			}
+			code := ""
+			var posExpr ast.Expr
+			for _, el := range cl.Elts {
+				kv, ok := el.(*ast.KeyValueExpr)
+				if !ok {
+					continue
+				}
+				k, _ := kv.Key.(*ast.Ident)
+				if k == nil {
+					continue
+				}
+				switch k.Name {
+				case "Code":
+					code = c.codeConstName(kv.Value)
+				case "Pos":
+					posExpr = kv.Value
+				}
+			}
+			if !faulting[code] {
+				return true
+			}
+			n++
+			good := posExpr != nil && mentions(posExpr, target, 0)
+			r.check(good, "store at its target", c.Pos(cl), code+" of an assignment target carries the target's position",
+				"the "+code+" that an assignment makes on its `"+target.Name()+"` target carries no position of its own: the stamping loop gives it the position of the assignment operator — `grid[row*4+` newline `col] = 1` reports the fault on the line of the `=`, while the load of the same element (and Go) report the line of the `[`")
+			return true
+		})
+		return true
+	})
+	if n == 0 {
+		r.undecided("store at its target", c.Pos(cs.Switch), "no SET/SETATTR/GET/GETATTR literal found under a target-symbol test in compile")
+	}
 }
